@@ -335,6 +335,17 @@ def T.iaLines (t : T) (c : String) : Option (List RLine Ã— Option (List String Ã
       let appL := a.map (fun r => RLine.append c r.k)
       some (dels ++ insL ++ appL, some (newH, newFull ++ a.map (fun r => FR.a c r.k)))
 
+def iaLinesOf (o : Option (List RLine Ã— Option (List String Ã— List FR))) : List RLine :=
+  match o with
+  | some (ls, _) => ls
+  | none => []
+
+def iaUpdOf (c : String) (o : Option (List RLine Ã— Option (List String Ã— List FR))) :
+    Option (String Ã— List String Ã— List FR) :=
+  match o with
+  | some (_, some (h, f)) => some (c, h, f)
+  | _ => none
+
 /-- Everything `applyUpdates` writes (canonical order) and the cache updates on success.
 `none` = the delete-rendering error. -/
 def T.plan (t : T) : Option (List RLine Ã— Map (Option (List String)) Ã— Map (List FR)) :=
@@ -347,8 +358,8 @@ def T.plan (t : T) : Option (List RLine Ã— Map (Option (List String)) Ã— Map (Li
   let ia := (sortS t.dirtyIA).map (fun c => (c, t.iaLines c))
   if ia.any (fun p => p.2.isNone) then none
   else
-    let iaLines := ia.flatMap (fun p => match p.2 with | some (ls, _) => ls | none => [])
-    let iaUpd := ia.filterMap (fun p => match p.2 with | some (_, some (h, f)) => some (p.1, h, f) | _ => none)
+    let iaLines := ia.flatMap (fun p => iaLinesOf p.2)
+    let iaUpd := ia.filterMap (fun p => iaUpdOf p.1 p.2)
     let dels := dirty.filter (fun c => (t.desiredChain c).isNone)
     let newH := newH1 ++ iaUpd.map (fun p => (p.1, some p.2.1)) ++ dels.map (fun c => (c, none))
     let newFull := iaUpd.foldl (fun m p => m.set p.1 p.2.2) t.fullRules
